@@ -31,7 +31,7 @@ QUICK_BUDGET_S = 80
 THOROUGH_BUDGET_S = 900
 RULE = ("histories of 1-10 operations over charts of the five games (0-12 hits, 0-8 holds, 1-4 tempo points, SVs, samples, "
         "extra StepMania lists; default, permuted and gapped row labels; list-valued cells and list-valued metadata); every "
-        "operation of the model's table is drawn (filters/sort/append/move/copy on all 26 list classes, rate, 17 converter "
+        "operation of the model's table is drawn (filters/sort/append/move/copy on all 24 list classes, rate, 17 converter "
         "entry points, 4 writers, full_ln, hitsound_copy, sv_normalize, scroll_speed, dominant_bpm, Pattern.from_note_lists/"
         "group/combinations, two sharing operations as negative controls); distinct = distinct canonical JSON; non-trivial = "
         "at least one call returned and its arguments held at least one non-empty frame")
